@@ -372,6 +372,54 @@ async fn restart_wrong_key(w: &mut World, off: bool) -> R<()> {
         let wv = json!({"restart_with": label, "panics": panics});
         return Err(viol("C19", "wrong-key", &format!("panic/{label}"), w.witness(wv)));
     }
+    // encryption enabled with a key that cannot be used (empty, wrong length, not base64), on a fresh data directory:
+    // the server either refuses to start or, if it runs, must not write anything in clear
+    if w.restarts % 3 == 0 {
+        let bad_key = ["", "00112233445566778899aabbccddeeff00112233445566778899aabbccddeeff", "c2hvcnQ=", "not base64 at all !!"][(w.hist % 4) as usize];
+        let probe_dir = w.dir.with_extension("unusable-key");
+        let _ = std::fs::remove_dir_all(&probe_dir);
+        let mut cfg2 = w.cfg.clone();
+        cfg2.encryption = true;
+        cfg2.enc_key = bad_key.to_string();
+        w.eval("C19:no-cleartext");
+        match timed("start", ServerInstance::start(&probe_dir, &cfg2, w.cache)).await? {
+            Err(StartError::Init(_)) | Err(StartError::Panic(_)) => {
+                let _ = crate::inst::take_server_panics();
+                w.event("unusable_key_start_refused");
+            }
+            Err(StartError::Harness(e)) => return Err(Stop::Inconclusive(e)),
+            Ok(inst3) => {
+                w.event("unusable_key_server_started");
+                let marker = format!("PROBE-CLEAR-{:016x}-payload", w.hist);
+                let sname = format!("probe-stream-{:08x}", w.hist & 0xffff_ffff);
+                let client = crate::raw::RawClient::connect(inst3.tcp_addr).await.map_err(Stop::Inconclusive)?;
+                let one = Identifier::numeric(1).unwrap();
+                let mut wrote = false;
+                if timed("login", client.login_user("iggy", "iggy")).await?.is_ok()
+                    && timed("create_stream", client.create_stream(&sname, Some(1))).await?.is_ok()
+                    && timed("create_topic", client.create_topic(&one, "probe-topic", 1, CompressionAlgorithm::None, None, Some(1), IggyExpiry::NeverExpire, MaxTopicSize::Unlimited)).await?.is_ok()
+                {
+                    let mut m = vec![iggy::messages::send_messages::Message::new(Some(1), bytes::Bytes::from(marker.clone()), None)];
+                    wrote = timed("send", client.send_messages(&one, &one, &iggy::messages::send_messages::Partitioning::partition_id(1), &mut m)).await?.is_ok();
+                }
+                drop(client);
+                let _ = timed("stop", inst3.stop(true)).await?;
+                let mut files = vec![];
+                crate::world::collect_files(&probe_dir, &mut files);
+                for f in &files {
+                    let Ok(data) = std::fs::read(f) else { continue };
+                    for mk in [marker.as_bytes(), sname.as_bytes()] {
+                        if crate::world::find(&data, mk).is_some() {
+                            let wv = json!({"encryption_enabled_with_key": bad_key, "server": "started", "message_sent": wrote, "clear_text_found_in": f.to_string_lossy(), "marker": String::from_utf8_lossy(mk)});
+                            let _ = std::fs::remove_dir_all(&probe_dir);
+                            return Err(viol("C19", "no-cleartext", "unusable-key-accepted", w.witness(wv)));
+                        }
+                    }
+                }
+            }
+        }
+        let _ = std::fs::remove_dir_all(&probe_dir);
+    }
     // the right key restores everything
     w.start_instance().await?;
     w.restarts += 1;
